@@ -236,6 +236,59 @@ def rule_no_ambient_input(ctx):
     r.floor(6)
 
 
+def rule_compare_every_byte_read(ctx):
+    """--replace / --no-backup / -o onto the input keep the old file when file_content_matches() says the new text equals it:
+    an `equal` for data that was read but not compared leaves the file unformatted while -f prints the formatted text"""
+    db = ctx.db
+    r = ctx.rule("compare-every-byte-read", "file_content_matches(): from every read() each path to the return passes memcmp() or the true edge of a "
+                 "test that the length read is <= 0 (end of file / error): no block is read and then left uncompared")
+    f = db.fn("file_content_matches", file=UNC)
+    reads = [n for n in f.all_nodes() if n["k"] == "call" and n.get("c") == "read"]
+    r.require(len(reads) >= 1, "file_content_matches no longer calls read()")
+    cmps = set(n["i"] for n in f.all_nodes() if n["k"] == "call" and n.get("c") in ("memcmp", "std::memcmp"))
+    r.require(cmps, "file_content_matches no longer calls memcmp()")
+    from ..flow import ReachingDefs
+    def up(i):
+        ps = f.parents().get(i) or [None]
+        return ps[0]
+    lens = {}
+    for rdn in reads:
+        par = up(rdn["i"])
+        while par is not None and f.nodes[par]["k"] == "cast":
+            par = up(par)
+        pn = f.nodes.get(par) if par is not None else None
+        var = expr_str(f, pn["a"][0]) if pn is not None and pn["k"] == "asg" else None
+        if var is None and pn is not None and pn["k"] == "decl":
+            var = [v["n"] for v in pn["vars"] if v.get("init") is not None][:1]
+            var = var[0] if var else None
+        r.check(var is not None, "file_content_matches/%s/length-kept" % expr_str(f, rdn["i"])[:24], db.loc(f, rdn), "the result of read() is not stored")
+        if var is not None:
+            lens[rdn["i"]] = var
+    eof = re.compile(r"^\(?(%s) (<=|<|==) 0\)?$" % "|".join(re.escape(v) for v in set(lens.values()))) if lens else None
+
+    def edge_ok(b, ei):
+        """false for the true edge of a test all of whose alternatives say that a length read is <= 0: the function's result
+        is then taken with a file at its end (the sizes were compared up front)"""
+        t = f.blocks[b].get("term")
+        c = t.get("lc", t.get("c")) if t else None
+        if c is None or len(f.succ[b]) != 2 or ei != 0:
+            return True
+        s = expr_str(f, c)
+        if " && " in s:
+            return True
+        return not all(eof.match(x.strip()) for x in s.split(" || "))
+    for rdn in reads:
+        if rdn["i"] not in lens:
+            continue
+        r.seen()
+        var = lens[rdn["i"]]
+        w = f.paths_avoiding(rdn["i"], lambda n: n["k"] == "ret", lambda n: n["i"] in cmps, edge_ok=edge_ok)
+        r.check(w is None, "file_content_matches/%s/compared-or-eof" % var, db.loc(f, rdn),
+                "a block read into the buffer (`%s`) can reach the return without memcmp() and without a test `<length> <= 0`: a difference in "
+                "it is not seen" % expr_str(f, rdn["i"]), path=["%s:%d" % (f.file, l) for l in f.path_lines(w[0])][-8:] if w else None)
+    r.floor(2)
+
+
 def rule_no_address_dependence(ctx):
     db = ctx.db
     r = ctx.rule("no-address-dependence", "no <,>,<=,>= between pointer operands, no iteration over a container keyed by a pointer type, "
@@ -290,4 +343,4 @@ def rule_delivery_independence(ctx):
     c11.rule_reset(ctx, rid="C11.reset")
 
 
-RULES = [rule_funnel, rule_observers_pure, rule_no_ambient_input, rule_no_address_dependence, rule_delivery_independence]
+RULES = [rule_funnel, rule_observers_pure, rule_no_ambient_input, rule_no_address_dependence, rule_delivery_independence, rule_compare_every_byte_read]
